@@ -15,7 +15,7 @@ MODE = 'nrt'
 SHARDS = {'quick': 2, 'thorough': 16}
 RULE = (
     'history stage: Hypothesis lists (<=50) of ops add/re-add/remove/pop/'
-    'peek(smallest|largest)/empty/clear/iterate over 6 tasks and a 6-value '
+    'peek(smallest|largest)/empty/clear/iterate over 4 tasks and a 6-value '
     'priority pool with ties (ints and floats mixed), each op compared with a '
     'list-of-(prio,seq,task) reference model after every step. enum stage: '
     'every history of mutators (add 3 tasks x 2 prios, remove x3, pop, clear) '
@@ -50,7 +50,7 @@ MANIFEST = {
 }
 
 PRIOS = [0, 1, 1.0, 2, 2.5, -1]
-TASKS = ['a', 'b', 'c', 'd', 'e', 'f']
+TASKS = ['a', 'b', 'c', 'd']
 
 
 def setup(ctx):
@@ -236,7 +236,7 @@ def history_strategy():
         st.tuples(st.just('iter')),
         st.tuples(st.just('clear')),
     ).map(list)
-    return st.lists(op, min_size=1, max_size=50)
+    return st.lists(op, min_size=3, max_size=50)
 
 
 # --- bounded exhaustive --------------------------------------------------------
